@@ -374,12 +374,16 @@ class LP_Solver:
         student_multiplier = 1 if len(cost_multipliers) < 1 else cost_multipliers[0]
         lecturer_multiplier = 0 if len(cost_multipliers) < 2 else cost_multipliers[1]
         self.info_string += '- optimisation: minimising sum of ranks\n'
+        # No matching can cost more than all pairs together.
+        up_bound = 0
+        for pair in list(chain.from_iterable(self.model.pairs)):
+            up_bound += pair.rank_student * student_multiplier
+            if (hasattr(pair, 'rank_lecturer')):
+              up_bound += pair.rank_lecturer * lecturer_multiplier
         obj = LpVariable(
                 "obj_mincost", 
                 lowBound = 0, 
-                upBound = self.model.num_students * self.model.num_projects *
-                  student_multiplier + self.model.num_students *
-                  self.model.num_lecturers * lecturer_multiplier,
+                upBound = up_bound,
                 cat = "Integer")
         sum_costs_exp = LpAffineExpression()
         for pair in list(chain.from_iterable(self.model.pairs)):
